@@ -136,10 +136,11 @@ Definition geometry : Type := list domain.
 (* state of dist_point_geom: distmin, caller's alphas, nearest (interface id, mesh nr, triangle nr) *)
 Record gstate : Type := mkGS { gs_d : option F; gs_al : vec; gs_near : option (nat * nat * nat); gs_err : option nat }.
 
-(* [keep_min = false] : the text of the pinned tree - the caller's alphas is handed to every interface
-   scan, which overwrites it with its own best triangle.
-   [keep_min = true]  : the repaired code - each scan fills a local vector which is copied to the
-   caller's alphas only when the interface improves the minimum. *)
+(* [keep_min = false] : the code as it is - the caller's alphas is handed to every interface scan, which
+   overwrites it with its own best triangle (so after the loop it holds the weights of the LAST boundary scanned).
+   [keep_min = true]  : the variant that copies a local vector to the caller's alphas only when the interface
+   improves the minimum.  It is NOT the code (the repair was withdrawn: the suite's HeadMN references were generated
+   with the behaviour above); it is kept as the reference the property asks for and to classify mismatches. *)
 Definition scan_boundary (keep_min : bool) (p : vec) (st : gstate) (b : nat * interface) : gstate :=
   match gs_err st with
   | Some _ => st
@@ -163,10 +164,10 @@ Definition scan_domain (keep_min : bool) (p : vec) (st : gstate) (d : domain) : 
 Definition dist_point_geom_gen (keep_min : bool) (p : vec) (g : geometry) (al : vec) : gstate :=
   fold_left (scan_domain keep_min p) g (mkGS None al None None).
 
-(* the code as it is now (after the fix: commit) *)
-Definition dist_point_geom := dist_point_geom_gen true.
-(* the pinned text, kept for the record of the refutation *)
-Definition dist_point_geom_pinned := dist_point_geom_gen false.
+(* the code as it is *)
+Definition dist_point_geom := dist_point_geom_gen false.
+(* the behaviour the property requires (weights of the minimum are kept) *)
+Definition dist_point_geom_repaired := dist_point_geom_gen true.
 
 (* reconstruction of the point from the barycentric weights *)
 Definition recon (T : tri) (al : vec) : vec :=
